@@ -570,6 +570,13 @@ class Driver {
         for (auto& kv : R[i])
           VF_CHECK(kv.first < int(i), "R_not_upper", "column " << i << " has an entry at position " << kv.first);
       }
+      if (n <= 40) {
+        for (size_t k = 0; k < n; ++k) {
+          bool ze = m->is_zero_entry(h, ids[k]);
+          VF_CHECK(ze == (R[i].count(int(k)) == 0), "is_zero_entry",
+                   "column at position " << i << ", row id " << ids[k] << ": is_zero_entry=" << ze << " content " << show(R[i]));
+        }
+      }
       // uniqueness of the pairing: zero pattern and lowest entries agree with the reference reduction
       VF_CHECK(R[i].empty() == r.R[i].empty() && ref::low(R[i]) == ref::low(r.R[i]), "R_low",
                "position " << i << " got " << show(R[i]) << " reference " << show(r.R[i]));
@@ -666,6 +673,13 @@ class Driver {
       VF_CHECK(piv == ids[i], "get_pivot", "position " << i << " get_pivot=" << piv << " expected id " << ids[i]);
       unsigned back = unsigned(m->get_column_with_pivot(ids[i]));
       VF_CHECK(back == h, "column_with_pivot", "get_column_with_pivot(" << ids[i] << ")=" << back << " expected " << h);
+      if (n <= 40) {
+        for (size_t k = 0; k < n; ++k) {
+          bool ze = m->is_zero_entry(h, ids[k]);
+          VF_CHECK(ze == (C[i].count(int(k)) == 0), "is_zero_entry",
+                   "column at position " << i << ", row id " << ids[k] << ": is_zero_entry=" << ze << " content " << show(C[i]));
+        }
+      }
     }
     for (size_t i = 0; i < n; ++i) {
       auto& col = m->get_column(handle(i));
